@@ -92,6 +92,63 @@ fn number_family(acc: &mut Acc) {
     }
 }
 
+/// blank space is insignificant only where the grammar has `S`: queries that differ in the blank runs *inside* a
+/// name or a string literal are different queries, and each of them is still equivalent to its own other spellings.
+/// The pairs are evaluated back to back (either order) so that anything keyed on a blank-normalised text collides.
+fn significant_blanks(acc: &mut Acc) {
+    let doc = json!({"a b": 1, "a  b": 2, "a\tb": 3, " ": 4, "  ": 5, "s": "a  b", "t": "a b", "arr": [{"k": "x y"}, {"k": "x  y"}, {"k": "x\ty"}]});
+    let am = AddrMap::new(&doc);
+    let groups: Vec<Vec<(&str, &str)>> = vec![
+        vec![("$['a b']", "$[\"a b\"]"), ("$['a  b']", "$[\"a  b\"]")],
+        vec![("$[' ']", "$[\" \"]"), ("$['  ']", "$[\"  \"]")],
+        vec![("$.arr[?@.k=='x y']", "$.arr[?(@.k == \"x y\")]"), ("$.arr[?@.k=='x  y']", "$.arr[?(@.k == \"x  y\")]")],
+        vec![("$[?@=='a b']", "$[ ?@ == \"a b\" ]"), ("$[?@=='a  b']", "$[ ?@ == \"a  b\" ]")],
+        vec![("$.arr[?search(@.k,'x y')]", "$.arr[?search(@.k , \"x y\")]"), ("$.arr[?search(@.k,'x  y')]", "$.arr[?search(@.k , \"x  y\")]")],
+    ];
+    for g in &groups {
+        for order in [[0usize, 1], [1, 0]] {
+            // evaluate the two different queries back to back, then each one's second spelling
+            let first = ids_only(&imp::run_with_path(g[order[0]].0, &doc, &am));
+            let second = ids_only(&imp::run_with_path(g[order[1]].0, &doc, &am));
+            for (k, base) in [(order[0], &first), (order[1], &second)] {
+                acc.evals += 1;
+                let alt = ids_only(&imp::run_with_path(g[k].1, &doc, &am));
+                if &alt != base {
+                    acc.viol(
+                        format!("{:?} and {:?} are equivalent spellings but, evaluated right after {:?}, they give {:?} and {:?} on {}", g[k].0, g[k].1, g[1 - k].0, base, alt, doc),
+                        json!({"kind": "spelling-sequence", "class": "blank runs inside strings", "first": g[order[0]].0, "second": g[order[1]].0, "canonical": g[k].0, "variant": g[k].1, "doc": doc}),
+                    );
+                } else {
+                    acc.nontrivial += 1;
+                }
+            }
+            // and the two different queries must not select the same nodes (they name different members / values)
+            if first == second && first.as_ref().map_or(false, |v| !v.is_empty()) {
+                acc.viol(
+                    format!("{:?} and {:?} differ in a blank run inside a string but select the same nodes {:?} on {}", g[0].0, g[1].0, first, doc),
+                    json!({"kind": "spelling-sequence", "class": "blank runs inside strings", "first": g[order[0]].0, "second": g[order[1]].0, "canonical": g[order[1]].0, "variant": g[order[1]].1, "doc": doc}),
+                );
+            }
+        }
+    }
+}
+
+pub fn replay_sequence(case: &Value, _run: &Run) -> Acc {
+    let mut acc = Acc::new();
+    let doc = &case["doc"];
+    let am = AddrMap::new(doc);
+    let g = |k: &str| case[k].as_str().unwrap_or("$").to_string();
+    let a = ids_only(&imp::run_with_path(&g("first"), doc, &am));
+    let b = ids_only(&imp::run_with_path(&g("second"), doc, &am));
+    let c = ids_only(&imp::run_with_path(&g("canonical"), doc, &am));
+    let v = ids_only(&imp::run_with_path(&g("variant"), doc, &am));
+    println!("{} -> {:?}\n{} -> {:?}\n{} -> {:?}\n{} -> {:?}", g("first"), a, g("second"), b, g("canonical"), c, g("variant"), v);
+    if c != v || (a == b && a.as_ref().map_or(false, |x| !x.is_empty())) {
+        acc.viol(format!("after {:?} then {:?}: {:?} gives {:?} but its spelling {:?} gives {:?}", g("first"), g("second"), g("canonical"), c, g("variant"), v), case.clone());
+    }
+    acc
+}
+
 pub fn run(tier: &str) -> i32 {
     let run = Run::new("C13", tier);
     let th = run.thorough();
@@ -168,6 +225,7 @@ pub fn run(tier: &str) -> i32 {
         .reduce(Acc::new, Acc::merge);
     let mut acc = acc;
     number_family(&mut acc);
+    significant_blanks(&mut acc);
     if acc.extra.get("MACHINERY_invalid_spelling").copied().unwrap_or(0) > 0 {
         eprintln!("MACHINERY: the spelling generator produced strings the RFC recogniser rejects:");
         for o in acc.outcomes.iter().take(5) {
